@@ -26,7 +26,7 @@ import re
 from .. import tlc
 from ..common import MachineryError, time_limit, ImplTimeout
 
-NWORK = 14
+NWORK = 6  # worker processes (a history costs 2-20 ms; forking and copy-on-write cost more than they save beyond a few workers)
 BATCH = 25000  # traces per judge run
 LIMIT = 30  # seconds per library call; a time-out is retried once in a new process with 10 x LIMIT
 
@@ -126,6 +126,8 @@ def _warm():
     from .. import upj, gen  # noqa
 
     up.environment.get_environment()
+    _module_code(unified_planning.io.pddl_writer)
+    _module_code(unified_planning.io.anml_writer)
 
 
 def run_tasks(tasks):
@@ -136,6 +138,12 @@ def run_tasks(tasks):
     if not tasks:
         return []
     _warm()
+    # the children are forked: keep the collector from touching (= copying, page by page) everything the parent has
+    # allocated so far.  Measured on 3 000 small histories: 121 CPU-s with 14 workers, 11 CPU-s with 4 + freeze.
+    import gc
+
+    gc.collect()
+    gc.freeze()
     ctxm = mp.get_context("fork")
     _ABORT = ctxm.Value("i", 0)
     res = [None] * len(tasks)
@@ -175,6 +183,7 @@ def run_tasks(tasks):
                 res[i] = {"skipped": True}
         else:
             again(late[NWORK:] + rest)
+    gc.unfreeze()
     return res
 
 
@@ -668,14 +677,29 @@ def _use_writer(lang, P, observe, limit):
     return rec
 
 
+_CODE = {}  # module name -> code object of the writer module (compiled once, in the parent, by _warm)
+
+
+def _module_code(mod):
+    if mod.__name__ not in _CODE:
+        _CODE[mod.__name__] = mod.__spec__.loader.get_code(mod.__name__)
+    return _CODE[mod.__name__]
+
+
+def _reload(mod):
+    """what importlib.reload does -- execute the module's code again in the module's namespace -- without
+    compiling the source again for every history (9/10 of the cost of a history: ./check runs without
+    byte-code files).  That "reloaded = new process" is itself checked on the sample run in both modes."""
+    exec(_module_code(mod), mod.__dict__)
+
+
 def _history(task, reload=False):
-    import importlib
     import unified_planning.io.pddl_writer as pw
     import unified_planning.io.anml_writer as aw
 
     if reload:
-        importlib.reload(pw)
-        importlib.reload(aw)
+        _reload(pw)
+        _reload(aw)
 
     out = {"id": task["id"], "lang": task["lang"], "kwlen0": len(pw.GENERAL_PDDL_KEYWORDS), "ops": []}
     for st in task["steps"]:
@@ -700,6 +724,8 @@ THEMES = {
     "emptyish": ["", " ", "_", "__", "-", "--", "?", "??", "x", "x_", "o_", "f_", "a_", "x__", "o__", "o_-", "x_-", "  "],
     "mangled": ["x", "x_0", "x_1", "x_0_0", "X", "X_0", "object", "object_", "Object", "OBJECT", "object_0", "a", "a_", "a__",
                 "a_0", "a__0", "o_a", "total-cost", "total_cost", "Total-Cost"],
+    # PDDL's predefined root type: reserved in the type namespace as soon as there is a second user type
+    "roottype": ["object", "Object", "OBJECT", "objecT", "object_", "Object_", "OBJECT_0", "object_0", "object__0"],
 }
 
 
@@ -712,7 +738,7 @@ def keyword_theme(rng, kw):
 
 
 def pick_pool(rng, kw_pddl, kw_anml):
-    ths = rng.sample(["case", "symbols", "digits", "unicode", "emptyish", "mangled", "kwp", "kwp", "kwa", "kwt"], rng.choice([1, 1, 2]))
+    ths = rng.sample(["case", "symbols", "digits", "unicode", "emptyish", "mangled", "roottype", "kwp", "kwp", "kwa", "kwt"], rng.choice([1, 1, 2]))
     pool = []
     for t in ths:
         if t == "kwp":
@@ -920,6 +946,11 @@ def skeleton_upj(case):
     anames = [n for k, n in items if k == "action"] or ["zza"]
     pnames = [n for k, n in items if k == "param"]
     ty = {"k": "user", "name": tnames[0]}
+    # several type items: every type is used (a further type gets an object of its own); feature "hier": the
+    # types form a chain (each one the father of the next), otherwise typing is flat
+    hier = "hier" in feats
+    types = [{"name": t, "parent": (tnames[k - 1] if hier and k > 0 else "")} for k, t in enumerate(tnames)]
+    more_objects = [{"name": "zzo%d" % k, "type": t} for k, t in enumerate(tnames) if k > 0]
     eff = {"kind": "assign", "f": {"name": "zzf", "args": []}, "v": E("const", v=BV(True)), "c": TRUE_E, "forall": []}
     acts = []
     for j, an in enumerate(anames):
@@ -934,8 +965,8 @@ def skeleton_upj(case):
     zf = E("fluent", name="zzf")
     return {
         "name": "zzp",
-        "types": [{"name": t, "parent": ""} for t in tnames],
-        "objects": [{"name": o, "type": tnames[0]} for o in onames],
+        "types": types,
+        "objects": [{"name": o, "type": tnames[0]} for o in onames] + more_objects,
         "fluents": [{"name": f, "type": {"k": "bool"}, "sig": [], "default": BV(False)} for f in fnames],
         "init": [],
         "actions": acts,
@@ -960,6 +991,15 @@ FAM_T = [(["a", "A", "a_", "a_0", "A_0", "a b", "a-b", "a_b", "1", "o_1", "and",
           [[], ["temporal"]], 2),
          (["a", "A", "a_0", "a b", "and", "start", ""], ["object", "action", "param"], [[], ["temporal"]], 3),
          (["a", "a_", "always", "ALWAYS", "at", "at_", "within", "start"], ["fluent", "action", "param"], [[], ["traj"], ["temporal"]], 2)]
+
+# user types and PDDL's root type `object`: its case variants and mangled forms, alone (the only case in which a
+# user type may be written `object`), with a second type (flat), in a hierarchy (as father and as sub-type), and
+# next to an object that already has the name the type would be renamed to
+ROOT_NAMES = ["object", "Object", "OBJECT", "object_", "a"]
+FAM_Q.append((ROOT_NAMES, ["type", "object"], [[], ["hier"]], 2))
+FAM_T.append((ROOT_NAMES + ["object_0"], ["type", "object"], [[], ["hier"]], 3))
+# T1 (repaired design only) is also run over the type universe: (names, kinds, feature sets, max items)
+T1_TYPES = (ROOT_NAMES, ["type", "object"], [[], ["hier"]], 2)
 
 T1_CFG = """SPECIFICATION ISpec
 CONSTANTS AliasKw = %(alias)s
@@ -1116,13 +1156,15 @@ def run(ctx):
     scale = float(os.environ.get("C38_SCALE", "1") or 1)
     fams = FAM_Q if q else FAM_T
     if scale < 1:
-        fams = [(["a", "A", "a b", "and", "start", "total-cost", "1", ""][: max(5, int(20 * scale))], ["fluent", "action", "param"], [[], ["temporal"]], 2)]
+        fams = [(["a", "A", "a b", "and", "start", "total-cost", "1", ""][: max(5, int(20 * scale))], ["fluent", "action", "param"], [[], ["temporal"]], 2),
+                FAM_Q[-1]]
         ctx.cov["scale"] = scale
     nfresh = max(4, int((30 if q else 300) * scale))
     stats = {}
     t1_notes = []
     nontrivial = 0
     n_enum = 0
+    enum_traces, enum_meta, n_judged = [], {}, 0
     # the problem written before a skeleton in the 2-step histories: temporal AND with a trajectory constraint
     toucher = skeleton_upj({"feats": ["temporal", "traj"], "items": []})
     env = {"KW": kwpath}
@@ -1163,6 +1205,21 @@ def run(ctx):
                                      "writers_constructed_before": res.trace[-1]["vars"].get("touched") if res.trace else None})
                 else:
                     t1_notes.append({"lang": lang, "holds_as_written": [i for i in invs]})
+            # the repaired PDDL design over the type universe (user types next to PDDL's root type `object`)
+            if scale >= 1:
+                tpath = os.path.join(d0, "univT1types.json")
+                tlc.write_json(tpath, {"names": [cp(n) for n in T1_TYPES[0]], "kinds": T1_TYPES[1], "feats": T1_TYPES[2]})
+                invs = T1_PROPER + ["HistoryIndependentOK"]
+                cfg = T1_CFG % {"alias": "FALSE", "anch": "TRUE", "mi": T1_TYPES[3], "lang": "pddl",
+                                "invs": "\n".join("INVARIANT " + i for i in invs)}
+                res = tlc.run_tlc("RenamerImpl", cfg, ctx.sub("t1"), env={"KW": kwpath, "UNIV": tpath}, timeout=3000)
+                if res.error:
+                    raise MachineryError(res.error)
+                ctx.add_tlc("T1 pddl repaired types " + "+".join(i[:-2] for i in invs if i != "KwCovers"), res)
+                if res.violated:
+                    ctx.violation("T1|pddl|types|%s" % res.violated,
+                                  "the repaired naming design (pddl, user types) violates %s" % res.violated,
+                                  {"trace": [x["vars"].get("wr") for x in res.trace]})
         # ---- T2: TLC-enumerated skeletons on the real writers --------------------------------
         envf = {"KW": kwpath, "UNIV": unipath}
         d = ctx.sub("enum%d" % fi)
@@ -1177,7 +1234,7 @@ def run(ctx):
         if not cases:
             raise MachineryError("RenamerEnum emitted nothing")
         pl = _Plan(fi * 1000000)
-        sample = set(rng.sample(range(len(cases)), min(nfresh, len(cases))))
+        sample = set(rng.sample(range(len(cases)), min(nfresh, max(4, len(cases) // 40), len(cases))))
         for i, c in enumerate(cases):
             P = skeleton_upj(c)
             desc = {"skeleton": [[x["kind"], uncp(x["orig"])] for x in c["items"]], "feats": c["feats"]}
@@ -1189,10 +1246,15 @@ def run(ctx):
         results = run_tasks(pl.tasks)
         traces = assemble(ctx, results, pl.plan, kwlen, stats)
         ctx.cov["evaluations"] += len(results)
-        for k in range(0, len(traces), BATCH):
-            judge(ctx, "enum%d-%d" % (fi, k // BATCH), traces[k:k + BATCH], env, pl.meta)
+        enum_traces += traces
+        enum_meta.update(pl.meta)
         nontrivial += sum(1 for t in traces if any(it["name"] != it["orig"] for it in t["ops"][-1]["items"]))
         n_enum += len(traces)
+        # the histories of the universes are judged together, one TLC start per BATCH traces
+        while len(enum_traces) >= BATCH or (enum_traces and fi == len(fams) - 1):
+            judge(ctx, "enum-%d" % n_judged, enum_traces[:BATCH], env, enum_meta)
+            del enum_traces[:BATCH]
+            n_judged += 1
     ctx.notes["t1_as_written_counterexamples"] = t1_notes
 
     # ---- T3: renamed G2 problems, first use and 2-step histories --------------------------
